@@ -13,22 +13,72 @@ import (
 // C14: queueing.Buffer behaves as a bounded FIFO list.
 
 type c14Op struct {
-	Cap int    `json:"cap,omitempty"` // only on the first op: selects the capacity
-	Op  string `json:"op"`
+	Cap  int    `json:"cap,omitempty"`  // only on the first op: selects the capacity
+	Elem string `json:"elem,omitempty"` // only on the first op: element type ("" = int, "rec" = c14Rec)
+	Op   string `json:"op"`
 }
 
 var c14Alphabet = []string{"push", "pop", "peek", "updatefront", "clear", "mutatecopy",
-	"snaprestore", "json", "jsonvalue", "restoreover", "restoreshort"}
+	"snaprestore", "json", "jsonvalue", "restoreover", "restoreshort", "ckpt", "rollback", "jsonintoused"}
+
+// c14Rec is an element type whose JSON form leaves members out (omitempty
+// scalars, maps, pointers): decoding it on top of an old value would keep what
+// the text does not mention.
+type c14Rec struct {
+	ID        int               `json:"id"`
+	Committed bool              `json:"committed,omitempty"`
+	Tags      map[string]string `json:"tags,omitempty"`
+	Ptr       *int              `json:"ptr,omitempty"`
+}
+
+func c14MkInt(v int) int { return v }
+
+// c14MkRec spreads the optional members over the values the histories use
+// (1..3 pushed, 9 update-front, 7 restore, -1/-5/77 scribbles on copies).
+func c14MkRec(v int) c14Rec {
+	r := c14Rec{ID: v}
+	switch v {
+	case 2, 9:
+		r.Committed = true
+	}
+	switch v {
+	case 3, 9:
+		r.Tags = map[string]string{fmt.Sprintf("k%d", v): "x"}
+	}
+	if v == 1 || v == 7 {
+		p := v * 11
+		r.Ptr = &p
+	}
+	return r
+}
 
 func c14Exec(hist []c14Op) (string, bool, []lib.Problem) {
+	if len(hist) > 0 && hist[0].Elem == "rec" {
+		return c14ExecT(hist, c14MkRec)
+	}
+	return c14ExecT(hist, c14MkInt)
+}
+
+func c14ExecT[T any](hist []c14Op, mk func(int) T) (string, bool, []lib.Problem) {
 	if len(hist) == 0 {
 		return "init", false, nil
 	}
 	capacity := hist[0].Cap
 	name := fmt.Sprintf("Buf%d", capacity)
-	buf := queueing.NewBuffer[int](name, capacity)
+	buf := queueing.NewBuffer[T](name, capacity)
 	b := &buf
 	var model []int
+	vals := func(m []int) []T {
+		out := make([]T, len(m))
+		for k, v := range m {
+			out[k] = mk(v)
+		}
+		return out
+	}
+	var zero T
+	var ckptData []byte
+	var ckptModel []int
+	hasCkpt := false
 	pushes := 0
 	var probs []lib.Problem
 	bad := func(step int, clause, format string, a ...any) {
@@ -54,15 +104,15 @@ func c14Exec(hist []c14Op) (string, bool, []lib.Problem) {
 			bad(step, "overflow", "model exceeds capacity")
 		}
 		got := b.Elements()
-		if len(got) != len(model) || (len(model) > 0 && !reflect.DeepEqual(got, model)) {
-			bad(step, "contents", "Elements()=%v want %v", got, model)
+		if len(got) != len(model) || (len(model) > 0 && !reflect.DeepEqual(got, vals(model))) {
+			bad(step, "contents", "Elements()=%+v want %+v", got, vals(model))
 		}
-		wantFront := 0
+		wantFront := zero
 		if len(model) > 0 {
-			wantFront = model[0]
+			wantFront = mk(model[0])
 		}
-		if b.Peek() != wantFront {
-			bad(step, "peek", "Peek()=%d want %d", b.Peek(), wantFront)
+		if !reflect.DeepEqual(b.Peek(), wantFront) {
+			bad(step, "peek", "Peek()=%+v want %+v", b.Peek(), wantFront)
 		}
 	}
 	for i, op := range hist {
@@ -71,30 +121,30 @@ func c14Exec(hist []c14Op) (string, bool, []lib.Problem) {
 			v := 1 + pushes%3
 			pushes++
 			if len(model) >= capacity {
-				msg := lib.Catch(func() { b.PushTyped(v) })
+				msg := lib.Catch(func() { b.PushTyped(mk(v)) })
 				if msg == "" {
 					bad(i, "push-full-accepted", "push on a full buffer was not refused")
 				}
 			} else {
-				msg := lib.Catch(func() { b.PushTyped(v) })
+				msg := lib.Catch(func() { b.PushTyped(mk(v)) })
 				if msg != "" {
 					bad(i, "push-refused", "push with room panicked: %s", msg)
 				}
 				model = append(model, v)
 			}
 		case "pop":
-			want := 0
+			want := zero
 			if len(model) > 0 {
-				want = model[0]
+				want = mk(model[0])
 				model = model[1:]
 			}
-			if got := b.Pop(); got != want {
-				bad(i, "pop", "Pop()=%d want %d", got, want)
+			if got := b.Pop(); !reflect.DeepEqual(got, want) {
+				bad(i, "pop", "Pop()=%+v want %+v", got, want)
 			}
 		case "peek":
 			// covered by observe
 		case "updatefront":
-			b.UpdateFront(9)
+			b.UpdateFront(mk(9))
 			if len(model) > 0 {
 				model = append([]int{9}, model[1:]...)
 			}
@@ -104,15 +154,15 @@ func c14Exec(hist []c14Op) (string, bool, []lib.Problem) {
 		case "mutatecopy":
 			e := b.Elements()
 			for k := range e {
-				e[k] = -1
+				e[k] = mk(-1)
 			}
-			_ = append(e, 77)
+			_ = append(e, mk(77))
 		case "snaprestore":
 			snap := b.Elements()
 			b.Clear()
 			b.Restore(snap)
 			for k := range snap {
-				snap[k] = -5 // the buffer must not alias the restored slice
+				snap[k] = mk(-5) // the buffer must not alias the restored slice
 			}
 		case "json":
 			data, err := json.Marshal(b)
@@ -120,7 +170,7 @@ func c14Exec(hist []c14Op) (string, bool, []lib.Problem) {
 				bad(i, "json-marshal", "%v", err)
 				break
 			}
-			nb := new(queueing.Buffer[int])
+			nb := new(queueing.Buffer[T])
 			if err := json.Unmarshal(data, nb); err != nil {
 				bad(i, "json-unmarshal", "%v", err)
 				break
@@ -129,7 +179,7 @@ func c14Exec(hist []c14Op) (string, bool, []lib.Problem) {
 		case "jsonvalue":
 			// a Buffer embedded by value in a State struct
 			type holder struct {
-				B queueing.Buffer[int] `json:"b"`
+				B queueing.Buffer[T] `json:"b"`
 			}
 			data, err := json.Marshal(holder{B: *b})
 			if err != nil {
@@ -143,7 +193,7 @@ func c14Exec(hist []c14Op) (string, bool, []lib.Problem) {
 			}
 			b = &h.B
 		case "restoreover":
-			over := make([]int, capacity+1)
+			over := make([]T, capacity+1)
 			msg := lib.Catch(func() { b.Restore(over) })
 			if msg == "" {
 				bad(i, "restore-over-accepted", "Restore of %d elements into capacity %d was accepted", capacity+1, capacity)
@@ -152,31 +202,76 @@ func c14Exec(hist []c14Op) (string, bool, []lib.Problem) {
 			if capacity == 0 {
 				break
 			}
-			b.Restore([]int{7})
+			b.Restore([]T{mk(7)})
 			model = []int{7}
+		case "ckpt":
+			// the JSON text of the buffer as it is now, kept for a later rollback
+			data, err := json.Marshal(b)
+			if err != nil {
+				bad(i, "json-marshal", "%v", err)
+				break
+			}
+			ckptData, ckptModel, hasCkpt = data, append([]int(nil), model...), true
+		case "rollback":
+			// decode the kept text into the live buffer (whatever it holds by now)
+			if !hasCkpt {
+				break
+			}
+			if err := json.Unmarshal(ckptData, b); err != nil {
+				bad(i, "json-unmarshal", "%v", err)
+				break
+			}
+			model = append([]int(nil), ckptModel...)
+		case "jsonintoused":
+			// decode the buffer's text into another buffer that has been used
+			data, err := json.Marshal(b)
+			if err != nil {
+				bad(i, "json-marshal", "%v", err)
+				break
+			}
+			other := queueing.NewBuffer[T]("Other", capacity+2)
+			for _, v := range []int{9, 2, 3, 1, 9}[:capacity+2] {
+				other.PushTyped(mk(v))
+			}
+			other.Pop()
+			if err := json.Unmarshal(data, &other); err != nil {
+				bad(i, "json-unmarshal", "%v", err)
+				break
+			}
+			b = &other
 		}
 		observe(i)
 		if len(probs) > 0 {
 			return "", true, probs
 		}
 	}
-	return fmt.Sprintf("cap%d %v p%d", capacity, model, pushes%3), false, nil
+	ck := "-"
+	if hasCkpt {
+		ck = fmt.Sprint(ckptModel)
+	}
+	return fmt.Sprintf("cap%d%s %v p%d ck%s", capacity, hist[0].Elem, model, pushes%3, ck), false, nil
 }
 
 func init() {
 	lib.Register(&lib.Check{
 		ID:    "C14",
 		Level: "model_checking",
-		Rule: "explicit-state BFS over histories of {push(auto value),pop,peek,updatefront,clear,mutate-copy,snapshot/restore,JSON pointer/value round trip,restore over capacity,restore short} " +
-			"on the real queueing.Buffer[int] for capacities 0..3; every transition replays the history on a fresh buffer and compares Size/Capacity/Name/CanPush/Elements/Peek and every return value with a Go slice; " +
-			"state = (capacity, contents, push counter mod 3)",
+		Rule: "explicit-state BFS over histories of {push(auto value),pop,peek,updatefront,clear,mutate-copy,snapshot/restore,JSON pointer/value round trip into a fresh buffer,restore over capacity,restore short,keep the JSON text,decode the kept text into the live buffer (rollback),decode the current text into another used buffer} " +
+			"on the real queueing.Buffer[T] for T in {int, a struct with omitempty scalar, map and pointer members} and capacities 0..3; every transition replays the history on a fresh buffer and compares Size/Capacity/Name/CanPush/Elements/Peek and every return value with a Go slice (deep equality); " +
+			"state = (element type, capacity, contents, push counter mod 3, kept contents)",
 		MinOutcomes: 0,
-		Assumptions: []string{"element type int; hooks not attached (hook firing is covered by C33)"},
+		Assumptions: []string{"two element types; hooks not attached (hook firing is covered by C33)"},
 		Run: func(c *lib.Ctx) {
 			lib.BFS(c, lib.BFSConfig[c14Op]{
 				Ops: func(hist []c14Op) []c14Op {
 					if len(hist) == 0 {
-						return []c14Op{{Cap: 0, Op: "peek"}, {Cap: 1, Op: "peek"}, {Cap: 2, Op: "peek"}, {Cap: 3, Op: "peek"}}
+						var first []c14Op
+						for _, el := range []string{"", "rec"} {
+							for cp := 0; cp <= 3; cp++ {
+								first = append(first, c14Op{Cap: cp, Elem: el, Op: "peek"})
+							}
+						}
+						return first
 					}
 					ops := make([]c14Op, 0, len(c14Alphabet))
 					for _, o := range c14Alphabet {
